@@ -57,6 +57,35 @@ Theorem tsv_roundtrip_any_splitter :
 Proof. exact roundtrip_plain. Qed.
 Print Assumptions tsv_roundtrip_any_splitter.
 
+(* ... and for every corner cell of the header line (observation_column_name: the default
+   "#OTU ID", an empty or blank cell as R / pandas write it, "Taxon", ...) that holds no tab
+   and no line break: when it does not start with '#' the header is found as the first line not
+   starting with '#', with the same result *)
+Theorem tsv_roundtrip_any_corner_cell :
+  forall fmt parse_num format process brk, good_brk brk ->
+  forall oc c keep,
+    ~ In TAB oc -> avoids brk oc ->
+    xwf c -> x_empty c = false -> ids_tsv_safe brk c -> faithful_on fmt parse_num brk c ->
+    roundtrip fmt parse_num format process brk keep c (mkO3 None None oc)
+    = ROk (mkX (x_oids c) (x_sids c) (x_mat c) None).
+Proof. exact roundtrip_plain_oc. Qed.
+Print Assumptions tsv_roundtrip_any_corner_cell.
+
+Theorem tsv_md_roundtrip_any_corner_cell :
+  forall fmt parse_num format process brk, good_brk brk ->
+  forall oc c keep key hv es,
+    ~ In TAB oc -> avoids brk oc ->
+    xwf c -> x_empty c = false -> ids_tsv_safe brk c -> faithful_on fmt parse_num brk c ->
+    key <> [] -> hv <> [] -> txt_ok brk hv -> is_space (last hv 0) = false ->
+    x_omd c = Some es ->
+    Forall (txt_ok brk) (md_texts format key c) ->
+    Exists (fun m => isfloat parse_num (strip m) = false) (md_texts format key c) ->
+    roundtrip fmt parse_num format process brk keep c (mkO3 (Some key) (Some hv) oc)
+    = ROk (mkX (x_oids c) (x_sids c) (x_mat c)
+               (Some (map (fun m => [(hv, process (strip m))]) (md_texts format key c)))).
+Proof. exact roundtrip_md_oc. Qed.
+Print Assumptions tsv_md_roundtrip_any_corner_cell.
+
 (* One observation-metadata category exported under the column name hv: it comes back, for
    every observation, as  process (strip (formatted text)),  provided the formatted texts hold
    no tab / line break and at least one of them is not accepted by float(). *)
@@ -192,3 +221,12 @@ Example tsv_trailing_blank_line_not_promised :
        :: ([111;49;9] ++ TsvExamples.t1em7 ++ [9] ++ TsvExamples.tm25) :: [[]])
   = ROk (mkX [[111;49]] [[115;49]] [[1]] (Some [[([115;50], tStr TsvExamples.tm25)]])).
 Proof. exact TsvExamples.trailing_blank_line. Qed.
+Example tsv_corner_cells_run :
+  roundtrip TsvExamples.fmt TsvExamples.parse fmt_naive proc_naive brk_univ true TsvExamples.c32 (mkO3 None None []) = ROk TsvExamples.c32
+  /\ roundtrip TsvExamples.fmt TsvExamples.parse fmt_naive proc_naive brk_nl false TsvExamples.c32 (mkO3 None None [32]) = ROk TsvExamples.c32
+  /\ roundtrip TsvExamples.fmt TsvExamples.parse fmt_naive proc_naive brk_univ false TsvExamples.c21 (mkO3 None None [84;97;120;111;110]) = ROk TsvExamples.c21.
+Proof. exact TsvExamples2.corner_cells_run. Qed.
+Example tsv_taxonomy_with_empty_levels_runs :
+  roundtrip TsvExamples.fmt TsvExamples.parse fmt_sc proc_sc brk_univ true TsvExamples2.c32tax
+            (mkO (Some TsvExamples.k_tax) (Some TsvExamples.k_tax)) = ROk TsvExamples2.c32tax.
+Proof. exact TsvExamples2.empty_levels_run. Qed.
